@@ -1,4 +1,6 @@
+import Mathlib.Tactic.Ring
 import LayerModel.Chain.Tally
+import LayerModel.Chain.Lifecycle
 import LayerModel.Gen.Formulas
 
 /-!
@@ -117,3 +119,88 @@ theorem C12_tokenholders_ignored_counterexample :
     tally x = .tallied .invalid true ∧ x.holders.a = 9 ∧ x.holders.sum = 9 := by decide
 
 end Layer.Tally
+
+/-! ### life cycle and vote bookkeeping -/
+namespace Layer.Lifecycle
+
+/-- **C12 (no way back).** Every transition the code performs raises the rank of the status, so a dispute record never returns to
+an earlier status, never passes through the same transition twice, and changes status at most three times. -/
+theorem C12_transitions_progress (a b : Status) (h : next a b = true) : rank a < rank b := by
+  cases a <;> cases b <;> simp [next] at h <;> simp [rank]
+
+/-- a status history in which every step is a transition of the code -/
+def History : List Status → Prop
+  | [] => True
+  | [_] => True
+  | a :: b :: rest => next a b = true ∧ History (b :: rest)
+
+theorem history_bound : ∀ (l : List Status) (s : Status), History (s :: l) → (s :: l).length + rank s ≤ 4
+  | [], s, _ => by cases s <;> simp [rank]
+  | y :: ys, s, h => by
+    obtain ⟨hxy, hrest⟩ := h
+    have hr := C12_transitions_progress s y hxy
+    have := history_bound ys y hrest
+    simp only [List.length_cons] at this ⊢
+    omega
+
+theorem C12_no_cycle (l : List Status) (h : History l) : l.length ≤ 4 := by
+  cases l with
+  | nil => simp
+  | cons x xs => have := history_bound xs x h; omega
+
+/-- **C12 (one vote per address and round; the group counters are the sums of the recorded votes).** -/
+def Consistent (r : Round) : Prop :=
+  (r.votes.map (·.voter)).Nodup ∧
+  r.users.total = (r.votes.map (·.user)).sum ∧ r.reporters.total = (r.votes.map (·.reporter)).sum ∧ r.holders.total = (r.votes.map (·.holder)).sum
+
+theorem add_total (c : Counts) (ch n : Nat) : (c.add ch n).total = c.total + n := by
+  unfold Counts.add Counts.total
+  split <;> simp <;> omega
+
+theorem C12_vote_consistent (r r' : Round) (v : V) (hc : Consistent r) (h : vote r v = some r') : Consistent r' := by
+  unfold vote at h
+  split at h; · cases h
+  rename_i hnew
+  split at h; · cases h
+  injection h with h; subst h
+  obtain ⟨h1, h2, h3, h4⟩ := hc
+  refine ⟨?_, ?_, ?_, ?_⟩
+  · simp only [List.map_append, List.map_cons, List.map_nil]
+    rw [List.nodup_append]
+    refine ⟨h1, by simp, ?_⟩
+    intro a ha b hb
+    simp at hb; subst hb
+    intro e; subst e
+    obtain ⟨x, hx, hxa⟩ := List.mem_map.mp ha
+    apply hnew
+    rw [List.any_eq_true]; exact ⟨x, hx, by simp [hxa]⟩
+  · simp [add_total, h2]
+  · simp [add_total, h3]
+  · simp [add_total, h4]
+
+theorem C12_second_vote_rejected (r r' : Round) (v w : V) (h : vote r v = some r') (hw : w.voter = v.voter) : vote r' w = none := by
+  unfold vote at h
+  split at h; · cases h
+  split at h; · cases h
+  injection h with h; subst h
+  unfold vote
+  have : (r.votes ++ [v]).any (·.voter == w.voter) = true := by
+    rw [List.any_eq_true]; exact ⟨v, by simp, by simp [hw]⟩
+  simp [this]
+
+/-- **C12 (the round fee doubles and is capped).** -/
+theorem C12_round_fee (slash : Int) (round : Nat) (h : 0 ≤ slash) :
+    roundFee slash round ≤ slash ∧ (slash / 20 * (2 ^ round : Nat) ≤ slash → roundFee slash (round + 1) = min slash (2 * roundFee slash round)) := by
+  unfold roundFee
+  constructor
+  · simp only []; split <;> omega
+  · intro hle
+    simp only []
+    have e : (slash / 20 * ((2 ^ (round + 1) : Nat) : Int)) = 2 * (slash / 20 * ((2 ^ round : Nat) : Int)) := by
+      push_cast; rw [pow_succ]; ring
+    rw [e]
+    have hn : ¬ (slash / 20 * ((2 ^ round : Nat) : Int) > slash) := by omega
+    simp only [hn, ↓reduceIte]
+    split <;> omega
+
+end Layer.Lifecycle
